@@ -116,7 +116,11 @@ class BBAN(common.Base):
         branch_code_length: int = ranges[Component.BRANCH_CODE].length
         account_code_length: int = ranges[Component.ACCOUNT_CODE].length
 
-        if len(components[Component.BANK_CODE]) == bank_code_length + branch_code_length:
+        branch_code_given = bool(common.clean(values.get(Component.BRANCH_CODE, "")))
+        if (
+            not branch_code_given
+            and len(components[Component.BANK_CODE]) == bank_code_length + branch_code_length
+        ):
             components[Component.BRANCH_CODE] = components[Component.BANK_CODE][
                 bank_code_length : bank_code_length + branch_code_length
             ]
